@@ -16,6 +16,28 @@ CLAUSES = {
 }
 
 
+# which operations a property is about.  A failing case is attributed like this:
+#   tree made of the property's operations only (over leaves)      -> every clause of the property, judged absolutely (Sem)
+#   tree mixing them with other operations, ROOT is the property's  -> only the RELATIONAL clauses: the root against what its direct
+#                                                                     children were observed to deliver (Pipeline.tla RootOwes)
+#   otherwise                                                      -> not this property's matter
+# and every non-leaf direct child of a mixed tree is run as a case of its own, so nothing goes unjudged.
+OWN_OPS = {"C08": {"overlay"}, "C09": {"zoom", "bbox"}}
+RELATIONAL = {"C08": {"rel_lookup", "rel_stream", "overlay_coverage"}, "C09": {"rel_lookup", "rel_stream"}}
+
+
+def tree_ops(t, acc=None):
+    acc = set() if acc is None else acc
+    if isinstance(t, dict):
+        if t.get("op") not in (None, "leaf", "debug"):
+            acc.add(t["op"])
+        if isinstance(t.get("src"), dict):
+            tree_ops(t["src"], acc)
+        for x in t.get("srcs") or []:
+            tree_ops(x, acc)
+    return acc
+
+
 def run_pipes(prop, tier, seed, replay, stages, rule, nontrivial, run=None, finish=True):
     chained = run is not None
     run = run or C.Run(prop, tier, seed, "model_checking")
@@ -40,6 +62,21 @@ def run_pipes(prop, tier, seed, replay, stages, rule, nontrivial, run=None, fini
             with open(cases, "a") as f:
                 f.write(open(part).read())
     case_list = C.read_ndjson(cases)
+    # every non-leaf direct child of a tree mixing overlays and filters is a case of its own
+    if not replay:
+        seen = {json.dumps(c["tree"], sort_keys=True) + json.dumps(c["sources"], sort_keys=True) for c in case_list}
+        more = []
+        for c in case_list:
+            t = c["tree"]
+            if c.get("invalid") or c.get("debug") or not ({"overlay"} & tree_ops(t) and {"zoom", "bbox"} & tree_ops(t)):
+                continue
+            for ch in (t.get("srcs") or [t.get("src")]):
+                if isinstance(ch, dict) and ch.get("op") not in ("leaf", "debug"):
+                    key = json.dumps(ch, sort_keys=True) + json.dumps(c["sources"], sort_keys=True)
+                    if key not in seen:
+                        seen.add(key)
+                        more.append({"k": "pipe", "tree": ch, "invalid": 0, "sources": c["sources"], "subtree_of_mixed": 1})
+        case_list += more
     # every 40th case additionally with real container files as sources (versatiles / mbtiles alternating)
     if not replay:
         extra = []
@@ -56,8 +93,25 @@ def run_pipes(prop, tier, seed, replay, stages, rule, nontrivial, run=None, fini
     s = C.run_harness(hb, ["replay", "PIPELINE", cases, t, C.scratch_dir(prop)], timeout=6000)
     v = C.validate_trace("trace/Trace_Pipeline.tla", "trace/Trace_Pipeline.cfg", prop + "_trace", t, timeout=3000, heap="12g")
     run.add_tlc(v)
+    own = OWN_OPS.get(prop)
+    skipped = {"other_operations_only": 0, "mixed_root_is_another_operation": 0, "mixed_absolute_clause": 0}
     for (line, fl) in v.fails:
+        rc = case_list[line - 1] if line - 1 < len(case_list) else None
+        ops = tree_ops(rc.get("tree")) if rc is not None else set()
         for cl in fl["clauses"]:
+            if (cl in CLAUSES[prop] or cl in RELATIONAL.get(prop, ())) and own is not None and rc is not None and ops:
+                if not (ops & own):
+                    skipped["other_operations_only"] += 1
+                    continue
+                if not ops <= own:
+                    if rc["tree"]["op"] not in own:
+                        skipped["mixed_root_is_another_operation"] += 1
+                        continue
+                    if cl not in RELATIONAL[prop]:
+                        skipped["mixed_absolute_clause"] += 1
+                        continue
+                elif cl not in CLAUSES[prop]:
+                    continue
             if cl == "declared":
                 run.observation("declared_compression", {"vpl": fl["case"]["vpl"], "declared": fl["case"].get("declared")})
                 continue
@@ -65,7 +119,7 @@ def run_pipes(prop, tier, seed, replay, stages, rule, nontrivial, run=None, fini
                 run.observation("coverage_formula", {"what": "the advertised coverage differs from source coverage /\\ filter box "
                                                      "(the model's formula; the properties ask for containment -- C03 -- and, for overlays, the union of the sources' advertised coverages -- clause overlay_coverage)", "vpl": fl["case"]["vpl"], "cov": fl["case"].get("cov")})
                 continue
-            if cl not in CLAUSES[prop]:
+            if cl not in CLAUSES[prop] and not (own is not None and cl in RELATIONAL[prop]):
                 continue
             c = fl["case"]
             rec = {"clause": cl, "vpl": c["vpl"], "files": c["files"], "invalid": c["invalid"], "case": c}
@@ -74,6 +128,37 @@ def run_pipes(prop, tier, seed, replay, stages, rule, nontrivial, run=None, fini
             run.failure(rec)
     run.traces += s["cases"]
     run.evaluations += s["cases"]
+    selftest = None
+    if own is not None and not replay:
+        # the relational clauses must bite: in up to 6 recorded mixed cases the root's answer for one coordinate is dropped
+        # (alternately from the lookups and from the streams) and Trace_Pipeline has to name rel_lookup / rel_stream for each
+        ct = os.path.join(d, "corrupted.ndjson")
+        n = 0
+        with open(ct, "w") as f:
+            for ln in open(t):
+                if '"kids":[{' not in ln.replace(" ", ""):
+                    continue
+                r = json.loads(ln)
+                hit = next((a for a in r["lookups"] if a[3] > 0), None)
+                if r.get("built") != 1 or hit is None or not all(k["built"] == 1 for k in r["kids"]):
+                    continue
+                if n % 2 == 0:
+                    hit[3] = 0
+                else:
+                    if not any(x[:3] == hit[:3] for st in r["streams"] for x in st["res"]):
+                        continue
+                    for st in r["streams"]:
+                        st["res"] = [x for x in st["res"] if x[:3] != hit[:3]]
+                f.write(json.dumps(r) + "\n")
+                n += 1
+                if n == 6:
+                    break
+        if n:
+            cv = C.validate_trace("trace/Trace_Pipeline.tla", "trace/Trace_Pipeline.cfg", prop + "_corrupted", ct, timeout=600)
+            named = [any(cl in ("rel_lookup", "rel_stream") for cl in fl["clauses"]) for (_, fl) in cv.fails]
+            selftest = {"corrupted_records": n, "rejected_by_a_relational_clause": sum(named)}
+            if sum(named) != n:
+                raise C.ToolError("self-test: %d corrupted mixed-tree records, only %d rejected by rel_lookup / rel_stream" % (n, sum(named)))
     nt = [c for c in case_list if nontrivial(c)]
     if chained:
         run.nontrivial += len(nt)
@@ -85,6 +170,6 @@ def run_pipes(prop, tier, seed, replay, stages, rule, nontrivial, run=None, fini
     run.samples = nt[:3]
     run.exhaustive = any_mc
     run.rule = rule
-    run.extra = {"cases": s["cases"], "cases_with_real_container_files_as_sources": len([c for c in case_list if c.get("files")])}
+    run.extra = {"cases": s["cases"], "failing_clauses_not_attributed_to_this_property": skipped, "relational_clauses_selftest": selftest, "cases_with_real_container_files_as_sources": len([c for c in case_list if c.get("files")])}
     run.assumptions = ["delivered bytes are identified by decoding with the DECLARED codec and comparing with the sources' raw payloads"]
     return run.finish() if finish else run
